@@ -148,6 +148,13 @@ fn respond(line: &str) -> String {
             },
             None => "bad-op".into(),
         },
+        ["stamp-override", a, b] => {
+            let f = |s: &str| dec(s).and_then(|b| String::from_utf8(b).ok());
+            match (f(a), f(b)) {
+                (Some(a), Some(b)) => redo::verif::verif_detect_override(&a, &b).to_string(),
+                _ => "bad-op".into(),
+            }
+        }
         ["makeflags", x] => match dec(x) {
             Some(x) => match redo::verif::verif_parse_makeflags(OsStr::from_bytes(&x)) {
                 Ok(None) => "absent".into(),
